@@ -34,7 +34,7 @@ PROBES = [
     "probe.trunc_in_record_header", "probe.trunc_in_record_data", "probe.trunc_on_boundary", "probe.corrupt_caplen",
     "probe.bad_magic", "probe.read_past_end", "probe.read_all_n_gt_remaining", "probe.read_all_n_zero", "probe.zero_records",
     "probe.nanosecond_magic", "probe.written_reread", "probe.written_stdout", "probe.record_gt_65535", "probe.empty_payload",
-    "probe.drain_loop", "probe.long_file", "probe.packet_written_twice", "probe.read_all_huge_n",
+    "probe.drain_loop", "probe.long_file", "probe.packet_written_twice", "probe.read_all_huge_n", "probe.output_path_existed",
 ]
 
 
@@ -168,6 +168,8 @@ def generate(rng, tier, idx):
         write["reread"] = write["target"] != "stdout" and rng.chance(60)
         # the same packet object written twice: again to the same output (1) or also to a second output (2)
         write["dup"] = rng.weighted([(70, 0), (15, 1), (15, 2)])
+        # the output path may already exist with other (longer) content: mode w must replace it
+        write["stale"] = 1 if (write["target"] == "w" and rng.chance(35)) else 0
     return {"eps": eps, "order": order, "write": write, "chunks": content.chunk_plan(rng), "rseed": rng.u64() >> 8}
 
 
@@ -275,6 +277,12 @@ def render(model):
         lines.append('if is_error(f%d) { eprintln("#%d X"); } else { %s }' % (e, k, body))
     lines.append("time();")
     lines.append('eprintln("#9999 V DONE");')
+    if w and w.get("stale"):
+        # a leftover of an earlier run: a valid, much longer capture
+        old = [{"sec": 9, "usec": 9, "wirelen": 99, "data": {"t": "pattern", "n": 99, "mul": 1, "add": j}} for j in range(300)]
+        files["d/out.pcap"] = pcapfmt.file_bytes(pcapfmt.default_header(), old)
+        if w.get("dup") == 2:
+            files["d/out2.pcap"] = files["d/out.pcap"]
     conc = {"argv": ["s.p2"], "script": "\n".join(lines) + "\n", "files": files, "dirs": ["d"], "stdin": stdin, "plan": plan}
     if w and w.get("reread"):
         l2 = ['let f = pcap_open("d/out.pcap");',
@@ -595,6 +603,8 @@ def check(model, results):
                     inc("probe.record_gt_65535")
             if w.get("dup"):
                 inc("probe.packet_written_twice")
+            if w.get("stale"):
+                inc("probe.output_path_existed")
             if w.get("dup") == 2:
                 out2 = res.files.get("d/out2.pcap")
                 hdr2, recs2, trailing2 = pcapfmt.parse(out2 or b"")
